@@ -688,10 +688,10 @@ FAULTS = ('f_wrong_class', 'f_wrong_name', 'f_foreign_elem', 'f_level_add', 'f_l
           'f_children_bad', 'f_settype', 'f_value_badleaf', 'f_deep_level_set', 'f_deep_version_set',
           'f_parent_ctor_level', 'f_parent_ctor_version', 'f_parent_assign_level', 'f_parent_assign_version',
           'f_children_keep_bad', 'f_proxy_badvalue', 'f_dtobject_complex', 'f_ctor_parent_refused',
-          'f_children_moved_then_bad')
+          'f_children_moved_then_bad', 'f_stale_handle_badvalue')
 WILD = ('w_reattach', 'w_add_twice', 'w_set_own', 'w_read', 'w_parent_ctor', 'w_del_view', 'w_pop', 'w_children_assign',
         'w_value', 'w_setitem_view', 'w_deep_write', 'w_detached_readd', 'w_parent_assign', 'w_insert_view',
-        'w_dtobject', 'w_setitem_view_elem', 'w_read_beyond')
+        'w_dtobject', 'w_setitem_view_elem', 'w_read_beyond', 'w_unnamed_component_value')
 
 
 class Skip(Exception):
@@ -950,6 +950,29 @@ def apply_wild(world, op):
         offered = bad
         moved = reps(other)[i % len(reps(other))]
         G(lambda: setattr(el, 'children', [moved, bad]))
+    elif k == 'f_stale_handle_badvalue':
+        # a handle taken through a field that did not exist yet; a real field of that name is then added by other means;
+        # a value the handle's component refuses is assigned through the handle: the real field stays, nothing else appears
+        if world.kind != 'segment':
+            raise Skip()
+        cands = [n for n in world.names if not el.children.indexes.get(n) and world.rows[n].kind == 'sequence' and
+                 world.rows[n].card[1] == -1]
+        if not cands:
+            raise Skip()
+        n0 = cands[i % len(cands)]
+        comps = [c for c in tables.components(world.version, world.rows[n0].datatype) if c.ok and c.card[1] != 0]
+        cx = [c for c in comps if c.kind == 'sequence' and not tables.is_base(world.version, c.datatype)]
+        if world.level == 1 and comps:
+            c0, bad = comps[0], 'x' * 70000
+        elif cx:
+            from hl7apy.factories import datatype_factory
+            c0, bad = cx[0], datatype_factory('ST', 'abc', world.version, world.level)
+        else:
+            raise Skip()
+        handle = G(lambda: getattr(getattr(el, n0.lower()), c0.name.lower()))
+        real = G(lambda: el.add_field(n0))
+        G(lambda: setattr(real, 'value', val))
+        G(lambda: setattr(handle, 'value', bad))
     elif k == 'f_children_keep_bad':
         # the current children plus one the element must refuse, assigned as a whole
         if world.kind == 'segment':
@@ -1026,6 +1049,28 @@ def apply_wild(world, op):
             G(lambda: (len(p), repr(p), list(p), p.value))
         except Exception:
             pass
+    elif k == 'w_unnamed_component_value':
+        # the component of a base-datatype field has no name of its own (it is called after its datatype); text with a
+        # sub-component separator assigned to it (TOLERANT keeps it) must leave name lookups and the list in agreement
+        if world.kind != 'segment':
+            raise Skip()
+        leafs = [c for n in world.names for c in el.children.indexes.get(n, []) if world.rows[n].kind == 'leaf']
+        if not leafs:
+            # populate a leaf field of the segment outside the world's names, if there is one
+            rws = [r for r in gen.usable_rows(world.version, world.seg) if r.kind == 'leaf' and r.datatype in ('ST', 'ID', 'IS', 'SI')
+                   and r.name not in world.names]
+            if not rws:
+                raise Skip()
+            G(lambda: setattr(el, rws[0].name.lower(), '1'))
+            leafs = list(el.children.indexes.get(rws[0].name, []))
+        fld = leafs[i % len(leafs)]
+        if not fld.children.list:
+            raise Skip()
+        comp = fld.children.list[0]
+        world.detached.append(fld)
+        G(lambda: setattr(comp, 'value', 'a' + world.chars()['SUBCOMPONENT'] + 'b'))
+        if fld.children.list:
+            G(lambda: fld.children.remove(fld.children.list[0]))
     elif k == 'w_reattach':
         src = reps(other)
         if src:
